@@ -2,16 +2,21 @@ package openapi3
 
 func newVisited() visitedComponent {
 	return visitedComponent{
-		header:   make(map[*Header]struct{}),
-		schema:   make(map[*Schema]struct{}),
-		callback: make(map[*Callback]struct{}),
+		header:   make(map[*Header]bool),
+		schema:   make(map[*Schema]bool),
+		callback: make(map[*Callback]bool),
 	}
 }
 
+// visitedComponent records the objects already walked, and whether they were
+// walked as part of an external document: an object first reached through a
+// reference within the root document is walked again when it turns out to
+// belong to an external one, whose own "#/components/..." references designate
+// objects of that document.
 type visitedComponent struct {
-	header   map[*Header]struct{}
-	schema   map[*Schema]struct{}
-	callback map[*Callback]struct{}
+	header   map[*Header]bool
+	schema   map[*Schema]bool
+	callback map[*Callback]bool
 }
 
 // resetVisited clears visitedComponent map
@@ -22,33 +27,33 @@ func (doc *T) resetVisited() {
 
 // isVisitedHeader returns `true` if the *Header pointer was already visited
 // otherwise it returns `false`
-func (doc *T) isVisitedHeader(h *Header) bool {
-	if _, ok := doc.visited.header[h]; ok {
+func (doc *T) isVisitedHeader(h *Header, asExternal bool) bool {
+	if wasExternal, ok := doc.visited.header[h]; ok && (wasExternal || !asExternal) {
 		return true
 	}
 
-	doc.visited.header[h] = struct{}{}
+	doc.visited.header[h] = asExternal
 	return false
 }
 
 // isVisitedHeader returns `true` if the *Schema pointer was already visited
 // otherwise it returns `false`
-func (doc *T) isVisitedSchema(s *Schema) bool {
-	if _, ok := doc.visited.schema[s]; ok {
+func (doc *T) isVisitedSchema(s *Schema, asExternal bool) bool {
+	if wasExternal, ok := doc.visited.schema[s]; ok && (wasExternal || !asExternal) {
 		return true
 	}
 
-	doc.visited.schema[s] = struct{}{}
+	doc.visited.schema[s] = asExternal
 	return false
 }
 
 // isVisitedCallback returns `true` if the *Callback pointer was already visited
 // otherwise it returns `false`
-func (doc *T) isVisitedCallback(c *Callback) bool {
-	if _, ok := doc.visited.callback[c]; ok {
+func (doc *T) isVisitedCallback(c *Callback, asExternal bool) bool {
+	if wasExternal, ok := doc.visited.callback[c]; ok && (wasExternal || !asExternal) {
 		return true
 	}
 
-	doc.visited.callback[c] = struct{}{}
+	doc.visited.callback[c] = asExternal
 	return false
 }
